@@ -118,6 +118,58 @@ def substitute_locals(expr: ast.AST, defs: Dict[str, ast.AST]) -> ast.AST:
     return Subst(defs).visit(copy.deepcopy(expr))
 
 
+class _CallOverIfExp(ast.NodeTransformer):
+    """(f if c else g)(x)  ->  f(x) if c else g(x)   (a conversion chosen once and applied later)"""
+
+    def visit_Call(self, node):
+        node = self.generic_visit(node)
+        if isinstance(node.func, ast.IfExp):
+            import copy
+            return ast.IfExp(test=node.func.test,
+                             body=ast.Call(func=node.func.body, args=copy.deepcopy(node.args), keywords=copy.deepcopy(node.keywords)),
+                             orelse=ast.Call(func=node.func.orelse, args=copy.deepcopy(node.args), keywords=copy.deepcopy(node.keywords)))
+        return node
+
+
+def all_local_defs(func: ast.AST) -> Dict[str, ast.AST]:
+    """like local_single_defs, but also locals assigned once *syntactically* inside loops (re-evaluated per iteration)"""
+    defs = dict(local_single_defs(func))
+    counts: Dict[str, int] = {}
+    vals: Dict[str, ast.AST] = {}
+    for n in walk_no_nested(func):
+        if isinstance(n, ast.Assign):
+            for t in n.targets:
+                for e in ast.walk(t):
+                    if isinstance(e, ast.Name) and isinstance(e.ctx, ast.Store):
+                        counts[e.id] = counts.get(e.id, 0) + 1
+                        if isinstance(t, ast.Name):
+                            vals[e.id] = n.value
+        elif isinstance(n, (ast.AugAssign, ast.AnnAssign, ast.For, ast.comprehension, ast.With)):
+            for e in ast.walk(n):
+                if isinstance(e, ast.Name) and isinstance(e.ctx, ast.Store):
+                    counts[e.id] = counts.get(e.id, 0) + 2
+    for k, v in vals.items():
+        if counts.get(k) == 1:
+            defs.setdefault(k, v)
+    return defs
+
+
+def normalise_expr(e: ast.AST, defs: Dict[str, ast.AST]) -> ast.AST:
+    """local substitution + distribution of calls over conditionally chosen functions + (a, b)[i] -> element"""
+    from sa.mir import _tuple_index_simplify
+    x = substitute_locals(e, defs)
+    x = _CallOverIfExp().visit(x)
+    x = _tuple_index_simplify(x)
+    ast.fix_missing_locations(x)
+    return x
+
+
+def expr_cases(e: ast.AST):
+    """[(guard formula, expression)] after splitting the conditional expressions of e"""
+    from sa.mir import _split_cases
+    return [(g, a["x"]) for g, a in _split_cases({"x": e})]
+
+
 def find_for_loops(func: ast.AST) -> List[ast.For]:
     return [n for n in walk_no_nested(func) if isinstance(n, ast.For)]
 
